@@ -272,6 +272,21 @@ func cmdCheck(args []string) int {
 				}
 			} else {
 				rr := replayGroup(*verif, *repo, *id, gi, g, prog, groupFns, groupViol, groupWit, *tier)
+				// concurrent harnesses: a schedule cannot be forced on a native run. If the native
+				// stress runs did not hit the violation, the counterexample is re-executed
+				// concretely (inputs and schedule fixed, no solver) in the interpreter.
+				for _, v := range groupViol {
+					if v.Reproduced || !strings.Contains(v.Harness, "_Conc") {
+						continue
+					}
+					for _, h := range groupFns {
+						if h.Name() == v.Harness && prog.ReplayConcrete(h, cfg, v) {
+							v.Reproduced = true
+							v.ReplayOut = "schedule-dependent: reproduced by concrete re-execution of the recorded schedule in the interpreter (native stress runs did not hit it)"
+							fmt.Printf("  %s/%s: %s\n", v.Harness, v.Tag, v.ReplayOut)
+						}
+					}
+				}
 				validated += rr.validated
 				witnessMismatch += rr.mismatch
 				if rr.err != "" {
@@ -418,6 +433,11 @@ func replayGroup(verif, repo, id string, gi int, g Group, prog *Program, fns []*
 				if outcome == "assert-failed tag="+v.Tag || (v.Tag == "deadlock" && strings.Contains(outcome, "deadlock")) {
 					v.Reproduced = true
 				}
+				// concurrent harness under the native scheduler: another assertion of the same
+				// harness (or a panic in the code under test) may fire first on the schedule it picks
+				if strings.Contains(v.Harness, "_Conc") && (strings.HasPrefix(outcome, "assert-failed") || strings.HasPrefix(outcome, "panic ")) {
+					v.Reproduced = true
+				}
 			case "panic":
 				if strings.HasPrefix(outcome, "panic ") || strings.HasPrefix(outcome, "assert-failed tag="+v.Tag) {
 					v.Reproduced = true
@@ -483,12 +503,12 @@ func runReplay(verif, repo, dir string, g Group, pkgName string, fns []*ssa.Func
 	if err := os.WriteFile(ovPath, ov, 0o644); err != nil {
 		return "", err
 	}
-	script := fmt.Sprintf("#!/bin/sh\n# native replay of the cases in cases.json against the real code in %s\ncd %s && GOFLAGS=-mod=mod GOPROXY=off VERIF_TIER=%s VERIF_REPLAY=%s go test -vet=off -count=1 -v -overlay %s -run '^TestVerifReplay$' %s\n",
+	script := fmt.Sprintf("#!/bin/sh\n# native replay of the cases in cases.json against the real code in %s\ncd %s && GOFLAGS=-mod=mod GOPROXY=off VERIF_TIER=%s VERIF_REPLAY_CONC_RUNS=300 VERIF_REPLAY=%s go test -vet=off -count=1 -v -overlay %s -run '^TestVerifReplay$' %s\n",
 		repo, repo, tier, casesPath, ovPath, g.Pkg)
 	os.WriteFile(filepath.Join(dir, "replay.sh"), []byte(script), 0o755)
 	cmd := exec.Command("go", "test", "-vet=off", "-count=1", "-v", "-overlay", ovPath, "-run", "^TestVerifReplay$", g.Pkg)
 	cmd.Dir = repo
-	cmd.Env = append(os.Environ(), "GOFLAGS=-mod=mod", "GOPROXY=off", "VERIF_REPLAY="+casesPath, "VERIF_TIER="+tier)
+	cmd.Env = append(os.Environ(), "GOFLAGS=-mod=mod", "GOPROXY=off", "VERIF_REPLAY="+casesPath, "VERIF_TIER="+tier, "VERIF_REPLAY_CONC_RUNS=300")
 	out, err := cmd.CombinedOutput()
 	if err != nil && !strings.Contains(string(out), "VERIF-REPLAY case=") {
 		return string(out), fmt.Errorf("go test failed: %v", err)
